@@ -22,6 +22,10 @@ import (
 func genPersistPlan(seed uint64, thorough bool) *Plan {
 	g := newGen(seed, 12)
 	g.keys = []string{"k0", "k1", "k2", "k3", "k4"}[:3+g.r.IntN(3)]
+	if g.chance(3) {
+		// names a snapshot encoding may trip over: empty, binary, with line breaks
+		g.keys = append(g.keys, g.pick("", "", "k\r\n5", "\x00", "k 6", "\xff\xfe"))
+	}
 	p := &Plan{Prop: "C19", Seed: seed, Class: "restart", Knobs: Knobs{Turns: true, Dump: true, Persist: true, RandSeed: int64(seed), MaxSteps: 200000, Sticky: 70, IdleCap: 100}}
 	if g.chance(3) {
 		p.Class = "crash"
@@ -398,7 +402,61 @@ func (c *persistChecker) Final(w *World) *Violation {
 					Msg: fmt.Sprintf("%s.\nAfter restart database %d holds %d keys, which is neither the previous snapshot (%s) nor the new one (%s)", img.note, db, len(dump), okPrev, okNext)}
 			}
 		}
-		go eng.RequestTermination()
+		if i > 0 {
+			go eng.RequestTermination()
+			continue
+		}
+		// The process that was restarted on the image lives on from it: one write
+		// over a connection, a clean stop (which saves), another start - the write
+		// must be there. (Whatever the crash left lying around - a temporary file,
+		// a half-written one - must not get in the way of later saves.)
+		addr := fmt.Sprintf(":%d", 7100+i)
+		reply, stopped := "", false
+		w.syncAdminPass(func() {
+			conn := newConn(9000+i, addr, "10.0.9.1:50000", &w.step)
+			if !w.net.dial(addr, conn) {
+				reply = "(connection refused)"
+				return
+			}
+			conn.cliDeliver(EncodeCmd(bs("SET", "written-after-the-crash", "1")), 0)
+			var got []byte
+			for tries := 0; tries < 2000 && reply == ""; tries++ {
+				for _, ch := range conn.cliTake(nil) {
+					got = append(got, ch.data...)
+				}
+				if v, n, err := ParseValue(got); err == nil && n > 0 {
+					reply = v.String()
+					break
+				}
+				time.Sleep(time.Millisecond)
+			}
+			conn.cliClose(false)
+		})
+		if reply != "+OK" {
+			go eng.RequestTermination()
+			return &Violation{Oracle: "crash-image", Step: w.step, Fp: "crash:restarted-instance-unusable",
+				Msg: fmt.Sprintf("%s.\nThe emulator restarted on the crash image answered SET with %q", img.note, reply)}
+		}
+		w.syncAdminPass(func() { eng.RequestTermination(); eng.WaitForTermination(); stopped = true })
+		if !stopped {
+			return &Violation{Oracle: "crash-image", Step: w.step, Fp: "crash:restarted-instance-does-not-stop",
+				Msg: fmt.Sprintf("%s.\nThe emulator restarted on the crash image did not terminate", img.note)}
+		}
+		eng2, err := redisemu.NewEmulator(w.lane, 7150+i, "", filepath.Join(img.dir, "snap"), nil)
+		if err != nil {
+			return &Violation{Oracle: "crash-image", Step: w.step, Fp: "crash:cannot-start", Msg: fmt.Sprintf("%s: second restart: %v", img.note, err)}
+		}
+		started = false
+		w.syncAdminPass(func() { eng2.Start(); started = true })
+		if !started {
+			return &Violation{Oracle: "crash-image", Step: w.step, Fp: "crash:cannot-start", Msg: fmt.Sprintf("%s: the emulator did not start the second time", img.note)}
+		}
+		o, ok := redisemu.SimDumpDb(eng2, 0)["written-after-the-crash"]
+		go eng2.RequestTermination()
+		if !ok || string(o.Str) != "1" {
+			return &Violation{Oracle: "crash-image", Step: w.step, Fp: "crash:write-after-restart-lost",
+				Msg: fmt.Sprintf("%s.\nThe emulator was restarted on the crash image, a key was SET (+OK), the emulator was stopped normally and started again: the key is not there - saves after the crash do not reach the disk", img.note)}
+		}
 	}
 	return nil
 }
